@@ -201,7 +201,7 @@ def reader_suffix_table(prog, sl):
     loc = None
     if pl is not None:
         base = pl[0]
-        loc = base if len(h.whole_defs(base)) > 1 else phi_local_of(h, {'c': [base]})
+        loc = base if len(h.whole_defs(base)) > 1 else phi_local_of(h, {'c': [base]}, through_proj=True)
     if loc is None:
         info['error'] = 'behaviour operand is not the result of a match'
         return h, table, info
